@@ -657,4 +657,42 @@ theorem parse_no_decode (db : CodecDB) {enc : Bytes} (hc : db.asciiCompatible en
     · simp only [h2, (Ne.symm magic_ne), if_false, if_true]; exact hbody true
     · simp [h1, h2]
 
+/-! ### helpers for concrete witnesses and for reading `parse_sound` entry by entry -/
+
+theorem WordAt_of_read1 {be : Bool} {b : Bytes} {off w : Nat} (h : read1 be b off = .ok w) : WordAt be b off w := by
+  rcases read1_cases be b off with ⟨_, hr⟩ | ⟨w', hw, hr⟩
+  · rw [hr] at h; cases h
+  · rw [hr] at h; cases h; exact hw
+
+theorem StringAt_of_readString {be : Bool} {b : Bytes} {desc : Nat} {s : Bytes} (nt : SynErr)
+    (h : readString be b desc nt = .ok s) : StringAt be b desc s := by
+  rcases readString_cases be b desc nt with ⟨s', hs, hr⟩ | ⟨x, hr⟩
+  · rw [hr] at h; cases h; exact hs
+  · rw [hr] at h; cases h
+
+theorem decodeEntries_get (db : CodecDB) (cs : Bytes) :
+    ∀ (l : List CatEntry) (ds : List Entry), decodeEntries db cs l = .ok ds →
+      ds.length = l.length ∧ ∀ i (h1 : i < l.length) (h2 : i < ds.length), decodeEntry db cs l[i] = .ok ds[i] := by
+  intro l
+  induction l with
+  | nil => intro ds h; simp [decodeEntries] at h; subst h; exact ⟨rfl, fun i h1 => by simp at h1⟩
+  | cons e es ih =>
+    intro ds h
+    simp only [decodeEntries] at h
+    cases hd : decodeEntry db cs e with
+    | error x => rw [hd] at h; cases h
+    | ok d =>
+      rw [hd] at h
+      cases hr : decodeEntries db cs es with
+      | error x => rw [hr] at h; cases h
+      | ok rest =>
+        rw [hr] at h
+        simp at h; subst h
+        obtain ⟨hl, hi⟩ := ih rest hr
+        refine ⟨by simp [hl], ?_⟩
+        intro i h1 h2
+        cases i with
+        | zero => simpa using hd
+        | succ i => simpa using hi i (by simpa using h1) (by simpa using h2)
+
 end I18n.Mo
